@@ -213,3 +213,32 @@ def impl(ctx, reqs, **kw):
 
 def model(ctx, reqs, **kw):
     return run_lines(ctx.model_binary(), reqs, **kw)
+
+
+def workload(rng, k):
+    """a workspace with 1..3 targets with disjoint outputs; contents and sub-directories are shared between targets so
+    that Cas.Write meets digests that already exist (memo hit / Exists=true / skipped upload)"""
+    shared = gen_tree(rng, 2, 3)
+    ws = D(("p", D()))
+    targets = []
+    nt = rng.choice([1, 2, 2, 3])
+    for t in range(nt):
+        outs = []
+        for o in range(rng.choice([1, 1, 2])):
+            if rng.random() < 0.65:
+                oid = "out%d_%d" % (t, o)
+                tree = gen_tree(rng, rng.choice([1, 2, 3]), rng.choice([2, 3, 4]))
+                if rng.random() < 0.6:
+                    tree = put(tree, ["shared"], shared)
+                if rng.random() < 0.5:
+                    tree = put(tree, ["dup.txt"], F("same"))
+                ws = put(ws, ["p", oid], tree)
+                outs.append(["dir", oid])
+            else:
+                oid = "f%d_%d.bin" % (t, o)
+                ws = put(ws, ["p", oid], F(rng.choice(["same", gen_content(rng)]), rng.random() < 0.4))
+                outs.append(["file", oid])
+        targets.append({"pkg": "p", "name": "t%d" % t, "key": "key%d_%d" % (k, t), "outputs": outs})
+    return ws, targets
+
+
